@@ -641,14 +641,14 @@ func (p *Preemptor) TryPreemption() (*AllocationResult, bool) {
 			continue
 		}
 		// stop collecting the victims once ask resource requirement met
-		if p.ask.GetAllocatedResource().StrictlyGreaterThanOnlyExisting(victimsTotalResource) {
+		if !victimsCoverAsk(victimsTotalResource, p.ask.GetAllocatedResource()) {
 			finalVictims = append(finalVictims, victim)
 		}
 		// add the victim resources to the total
 		victimsTotalResource.AddTo(victim.GetAllocatedResource())
 	}
 
-	if p.ask.GetAllocatedResource().StrictlyGreaterThanOnlyExisting(victimsTotalResource) {
+	if !victimsCoverAsk(victimsTotalResource, p.ask.GetAllocatedResource()) {
 		// there is shortfall, so preemption doesn't help
 		p.ask.LogAllocationFailure(common.PreemptionShortfall, true)
 		return nil, false
@@ -715,6 +715,13 @@ func (p *Preemptor) TryPreemption() (*AllocationResult, bool) {
 		zap.Int("collected victim count", len(victims)),
 		zap.Int("preempted victim count", len(finalVictims)))
 	return newReservedAllocationResult(nodeID, p.ask), true
+}
+
+// victimsCoverAsk returns true when the collected victims free at least what the ask needs in every resource type
+// the victims hold. Types the victims do not use cannot be freed by preemption and are left to the free space of the
+// node. Nothing collected never covers an ask.
+func victimsCoverAsk(victims, ask *resources.Resource) bool {
+	return !victims.IsEmpty() && victims.FitInMaxUndef(ask)
 }
 
 // Duplicate creates a copy of this snapshot into the given map by queue path
